@@ -7,20 +7,67 @@ META = {
 }
 VIRT = "harness/gate_virt_h.c"
 VIRT_ANN = [("src/nanovirt/main.c", "contracts/loops/nanovirt_main.c.loops")]
-VIRT_REPL = ["fopen", "fwrite", "fread", "fseek", "ftell", "fclose", "strcmp", "strncmp", "strlen",
-             "tokenize", "parse_program", "process_imports", "type_check", "create_environment", "create_module_list",
-             "clear_module_cache", "typecheck_set_current_file", "free_ast", "free_tokens", "free_environment",
-             "free_module_list", "nvm_verify", "vm_init", "vm_destroy", "vm_error_string", "vm_execute", "vm_get_result",
-             "vm_ffi_init", "vm_ffi_shutdown", "vm_ffi_load_module", "vm_ffi_set_env", "nvm_get_string", "nvm_module_free",
-             "codegen_compile", "nvm_serialize", "wrapper_generate", "wrapper_generate_daemon"]
+VIRT_REPL = []
 NOCHK = ["--no-standard-checks"]
+GI = ["--no-malloc-may-fail"]   # under --dfcc the malloc model is linked by goto-instrument: the flag must be given there
+
+
+NANOC = "harness/gate_nanoc_h.c"
+NANOC_ANN = [("src/main.c", "contracts/loops/main.c.gate.loops")]
+NANOC_REPL = ["llm_emit_diags_json", "llm_emit_diags_toon", "strdup"]
+
+
+def cut_is_structural(repo):
+    """Textual side condition of the path cut at transpile_to_c (harness/gate_nanoc_h.c): inside compile_file there is
+    no goto / label / setjmp, exactly one call of transpile_to_c, at the top nesting level of the function body, and no
+    system() / fopen() in a write mode textually before it.  Then every execution that reaches the code behind the
+    call has executed the call, where GATE_OPEN and "type checker + shadow tests ran" are asserted."""
+    import os, re, sys
+    sys.path.insert(0, os.path.join(os.path.dirname(os.path.dirname(os.path.abspath(__file__))), "tools"))
+    import annotate
+    try:
+        src = open(os.path.join(repo, "src/main.c"), encoding="utf-8", errors="surrogateescape").read()
+        m = annotate.mask(src)
+        lo, hi = annotate.find_function(m, "compile_file")
+    except (OSError, annotate.AnnotateError) as e:
+        return False, str(e)
+    body = m[lo:hi + 1]
+    if re.search(r"\b(goto|setjmp|longjmp|sigsetjmp)\b", body) or re.search(r"^\s*[A-Za-z_]\w*\s*:\s*$", body, re.M):
+        return False, "goto/label/setjmp in compile_file"
+    calls = [x.start() for x in re.finditer(r"\btranspile_to_c\s*\(", body)]
+    if len(calls) != 1:
+        return False, "%d calls of transpile_to_c" % len(calls)
+    pre = body[:calls[0]]
+    if pre.count("{") - pre.count("}") != 1:
+        return False, "transpile_to_c is not called at the top nesting level of compile_file"
+    if re.search(r"\bsystem\s*\(", pre):
+        return False, "system() before transpile_to_c"
+    for x in re.finditer(r"\bfopen\s*\(", pre):
+        # mode is a string literal: look at the unmasked text of the call
+        call = src[lo + x.start(): lo + annotate.match_close(body, x.end() - 1, "(", ")") + 1]
+        if not re.search(r',\s*"r[b]?"\s*\)$', call):
+            return False, "fopen in a write mode before transpile_to_c: " + call
+    return True, ""
 
 
 def obligations(repo):
     obs = []
+    ok, why = cut_is_structural(repo)
+    cut_def = {} if ok else {"VERIF_STRUCT_CHECK_FAILED": 1}   # -> #error in the harness -> UNDECIDED, never a proof
     obs.append(dict(id="C05.gate.virt", prop="C05", harness=VIRT, entry="h_virt_main", annotate=VIRT_ANN,
-                    enforce="virt_main", replace=VIRT_REPL, loops=True, unwind="auto", checks=[], flags=NOCHK,
+                    enforce="virt_main", replace=VIRT_REPL, loops=True, unwind="auto", checks=[], flags=NOCHK, gi_flags=GI,
                     strength="U", functions=["nano_virt main"], timeout=600,
-                    must_have=[r"virt_main\.postcondition", r"loop_invariant_step", r"decreases", r"fopen\.precondition"],
+                    must_have=[r"virt_main\.postcondition", r"loop_invariant_step", r"decreases", r"GATE fopen for writing"],
                     min_checks=20))
+    obs.append(dict(id="C05.gate.nanoc", prop="C05", harness=NANOC, entry="h_compile_file", annotate=NANOC_ANN, include_repo=[".", "src"], defines=cut_def,
+                    enforce="compile_file", replace=NANOC_REPL, loops=True, unwind="auto", checks=[], flags=NOCHK, gi_flags=GI,
+                    strength="U", functions=["compile_file (prefix up to transpile_to_c)"], timeout=600,
+                    must_have=[r"compile_file\.postcondition", r"loop_invariant_step", r"decreases", r"GATE transpile_to_c",
+                               r"GATE run_shadow_tests"],
+                    min_checks=20))
+    mdef = dict(cut_def); mdef["GATE_VIEW_MAIN"] = 1
+    obs.append(dict(id="C05.exit.nanoc", prop="C05", harness=NANOC, entry="h_nanoc_main", annotate=NANOC_ANN,
+                    include_repo=[".", "src"], defines=mdef, enforce="nanoc_main", replace=["compile_file"], loops=True,
+                    unwind="auto", checks=[], flags=NOCHK, gi_flags=GI, strength="U", functions=["nanoc main"], timeout=600,
+                    must_have=[r"nanoc_main\.postcondition", r"loop_invariant_step", r"decreases"], min_checks=20))
     return obs
